@@ -129,7 +129,12 @@ Proof.
     + intros i j Hij Hg Z.
       assert (Hin : In (i, j) hex_pairs).
       { assert (F : forall a b, (a < b < 6)%nat -> existsb (key_of a b) hex_pairs = true).
-        { intros a b Hab. do 6 (destruct a as [|a]; [do 6 (destruct b as [|b]; [try lia; reflexivity|]); lia|]). lia. }
+        { intros a b Hab.
+          assert (G : forallb (fun a => forallb (fun b => if Nat.ltb a b then existsb (key_of a b) hex_pairs else true)
+                                                (seq 0 6)) (seq 0 6) = true) by (vm_compute; reflexivity).
+          rewrite forallb_forall in G. specialize (G a ltac:(apply in_seq; lia)).
+          rewrite forallb_forall in G. specialize (G b ltac:(apply in_seq; lia)).
+          assert (Hl : Nat.ltb a b = true) by (apply Nat.ltb_lt; lia). rewrite Hl in G. exact G. }
         specialize (F i j Hij). apply existsb_exists in F. destruct F as ([a b] & Hin & Hk).
         unfold key_of in Hk. apply andb_true_iff in Hk. destruct Hk as [K1 K2].
         apply Nat.eqb_eq in K1. apply Nat.eqb_eq in K2. cbn in K1, K2. subst. exact Hin. }
